@@ -1,0 +1,118 @@
+//go:build verif
+
+// Contracts for the deductive verifier in /verif (icsvc). Comment-only: this file contributes no code.
+// Syntax: see /verif/DESIGN.md section 2.5. Function names are relative to this package.
+
+package keeper
+
+//@ spec sumPow(a []types.ConsensusValidator, n int) int = n <= 0 ? 0 : sumPow(a, n-1) + a[n-1].Power
+
+//@ func sum
+//@ requires forall i int :: 0 <= i && i < len(validators) ==> validators[i].Power >= 0
+//@ ensures [def] result == sumPow(validators, len(validators))
+//@ loop 1 invariant [idx] 0 <= _i && _i <= len(validators)
+//@ loop 1 invariant [acc] s == sumPow(validators, _i)
+
+//@ func Keeper.CapValidatorSet
+//@ ensures [topn] powerShapingParameters.Top_N > 0 ==> len(result) == len(validators)
+//@ ensures [size] powerShapingParameters.Top_N == 0 && powerShapingParameters.ValidatorSetCap != 0 ==> len(result) <= powerShapingParameters.ValidatorSetCap
+//@ ensures [prefix] len(result) <= len(validators) && forall i int :: 0 <= i && i < len(result) ==> result[i] == validators[i]
+//@ ensures [full] (powerShapingParameters.Top_N > 0 || powerShapingParameters.ValidatorSetCap == 0 || powerShapingParameters.ValidatorSetCap >= len(validators)) ==> len(result) == len(validators)
+//@ ensures [exact] powerShapingParameters.Top_N == 0 && powerShapingParameters.ValidatorSetCap != 0 && powerShapingParameters.ValidatorSetCap < len(validators) ==> len(result) == powerShapingParameters.ValidatorSetCap
+
+//@ func Keeper.SetConsumerPhase
+//@ requires 0 <= phase && phase <= 5
+//@ ensures [set] k.GetConsumerPhase(ctx, consumerId) == phase
+//@ ensures [frame] forall key bytes :: key != types.ConsumerIdToPhaseKey(consumerId) ==> S[key] == old(S[key])
+//@ ensures [other] forall c string :: c != consumerId ==> k.GetConsumerPhase(ctx, c) == old(k.GetConsumerPhase(ctx, c))
+//@ ensures [noeffect] E == old(E) && X == old(X)
+
+// ---------------------------------------------------------------- C12: vsc ids and heights
+
+//@ func Keeper.BlocksUntilNextEpoch
+//@ requires k.GetBlocksPerEpoch(ctx) > 0
+//@ let e := k.GetBlocksPerEpoch(ctx)
+//@ ensures [zero] result == 0 <==> height % e == 0
+//@ ensures [def] result == (height % e == 0 ? 0 : e - height % e)
+//@ ensures [range] 0 <= result && result < e
+//@ ensures [pure] S == old(S) && E == old(E)
+
+//@ func Keeper.IncrementValidatorSetUpdateId
+//@ ensures [inc] k.GetValidatorSetUpdateId(ctx) == old(k.GetValidatorSetUpdateId(ctx)) + 1
+//@ ensures [frame] forall key bytes :: key != types.ValidatorSetUpdateIdKey() ==> S[key] == old(S[key])
+
+//@ func Keeper.EndBlockCIS
+//@ let id := old(k.GetValidatorSetUpdateId(ctx))
+//@ ensures [map] k.GetValsetUpdateBlockHeight(ctx, id).0 == height + 1 && k.GetValsetUpdateBlockHeight(ctx, id).1
+//@ ensures [id] k.GetValidatorSetUpdateId(ctx) == id
+
+// ---------------------------------------------------------------- C05 / C06: key assignment
+
+//@ func Keeper.AssignConsumerKey
+//@ let c := consumerId
+//@ let newAddr := types.NewConsumerConsAddress(ccvtypes.TMCryptoPublicKeyToConsAddr(consumerKey).0)
+//@ let p := types.NewProviderConsAddress(validator.GetConsAddr().0)
+//@ let owner := old(k.stakingKeeper.GetValidatorByConsAddr(ctx, newAddr.ToSdkConsAddr()))
+//@ let had := old(k.GetValidatorConsumerPubKey(ctx, c, p))
+//@ let oldAddr := types.NewConsumerConsAddress(ccvtypes.TMCryptoPublicKeyToConsAddr(had.0).0)
+//@ let ub := old(k.stakingKeeper.UnbondingTime(ctx))
+//@ ensures [inactive] !old(k.IsConsumerActive(ctx, c)) ==> result != nil
+//@ ensures [other-val] owner.1 == nil && owner.0.OperatorAddress != validator.OperatorAddress ==> result != nil
+//@ ensures [default] owner.1 == nil && !had.1 ==> result != nil
+//@ ensures [in-use] old(k.GetValidatorByConsumerAddr(ctx, c, newAddr)).1 ==> result != nil
+//@ ensures [any-error] result != nil ==> S == old(S) && E == old(E) && X == old(X)
+//@ ensures [assigned] result == nil ==> k.GetValidatorConsumerPubKey(ctx, c, p).1 && k.GetValidatorConsumerPubKey(ctx, c, p).0 == consumerKey
+//@ ensures [reverse] result == nil ==> k.GetValidatorByConsumerAddr(ctx, c, newAddr).1 && k.GetValidatorByConsumerAddr(ctx, c, newAddr).0 == p
+//@ ensures [no-deps] E == old(E) && X == old(X)
+//@ ensures [keep-old] result == nil && had.1 && old(k.GetConsumerPhase(ctx, c)) == types.CONSUMER_PHASE_LAUNCHED && oldAddr != newAddr ==> k.GetValidatorByConsumerAddr(ctx, c, oldAddr) == old(k.GetValidatorByConsumerAddr(ctx, c, oldAddr))
+//@ ensures [prune-time] result == nil && had.1 && old(k.GetConsumerPhase(ctx, c)) == types.CONSUMER_PHASE_LAUNCHED ==> len(k.GetConsumerAddrsToPrune(ctx, c, now + ub.0).Addresses) == len(old(k.GetConsumerAddrsToPrune(ctx, c, now + ub.0)).Addresses) + 1 && k.GetConsumerAddrsToPrune(ctx, c, now + ub.0).Addresses[len(old(k.GetConsumerAddrsToPrune(ctx, c, now + ub.0)).Addresses)] == oldAddr.ToSdkConsAddr()
+//@ ensures [drop-old] result == nil && had.1 && old(k.GetConsumerPhase(ctx, c)) != types.CONSUMER_PHASE_LAUNCHED && oldAddr != newAddr ==> !k.GetValidatorByConsumerAddr(ctx, c, oldAddr).1
+//@ ensures [frame] forall key bytes :: key != types.ConsumerValidatorsKey(c, p) && key != types.ValidatorsByConsumerAddrKey(c, newAddr) && key != types.ValidatorsByConsumerAddrKey(c, oldAddr) && key != types.ConsumerAddrsToPruneV2Key(c, now + ub.0) ==> S[key] == old(S[key])
+
+// ---------------------------------------------------------------- C08 / C09: slash packets
+
+//@ func Keeper.HandleSlashPacket
+//@ let cAddr := providertypes.NewConsumerConsAddress(data.Validator.Address)
+//@ let p := old(k.GetProviderAddrFromConsumerAddr(ctx, consumerId, cAddr))
+//@ let a := p.ToSdkConsAddr()
+//@ let v := old(k.stakingKeeper.GetValidatorByConsAddr(ctx, a))
+//@ let tomb := old(k.slashingKeeper.IsTombstoned(ctx, a))
+//@ let h := old(k.getMappedInfractionHeight(ctx, consumerId, data.ValsetUpdateId))
+//@ let prm := old(k.GetInfractionParameters(ctx, consumerId))
+//@ let dropped := v.1 != nil || v.0.IsUnbonded() || tomb || !h.1
+//@ let acks0 := old(k.GetSlashAcks(ctx, consumerId))
+//@ let eSlash := eff_StakingKeeper_SlashWithInfractionReason(a, h.0, data.Validator.Power, prm.0.Downtime.SlashFraction, stakingtypes.Infraction_INFRACTION_DOWNTIME)
+//@ let eJail := eff_StakingKeeper_Jail(a)
+//@ let eUntil := eff_SlashingKeeper_JailUntil(a, now + prm.0.Downtime.JailDuration)
+//@ ensures [drop] dropped ==> E == old(E) && S == old(S) && X == old(X)
+//@ ensures [ack] !dropped ==> len(k.GetSlashAcks(ctx, consumerId)) == len(acks0) + 1 && k.GetSlashAcks(ctx, consumerId)[len(acks0)] == cAddr.String()
+//@ ensures [ack-keep] !dropped ==> forall i int :: 0 <= i && i < len(acks0) ==> k.GetSlashAcks(ctx, consumerId)[i] == acks0[i]
+//@ ensures [already] !dropped && v.0.IsJailed() ==> E == old(E)
+//@ ensures [noparams] !dropped && prm.1 != nil ==> E == old(E)
+//@ ensures [who] !dropped && prm.1 == nil && !v.0.IsJailed() ==> E == elog(old(E), eSlash) || E == elog(old(E), eSlash, eJail) || E == elog(old(E), eSlash, eJail, eUntil)
+//@ ensures [frame] forall key bytes :: key != providertypes.SlashAcksKey(consumerId) ==> S[key] == old(S[key])
+
+//@ func Keeper.OnRecvSlashPacket
+//@ let cid := old(k.GetChannelIdToConsumerId(ctx, packet.DestinationChannel))
+//@ let c := cid.0
+//@ requires cid.1
+//@ let cAddr := providertypes.NewConsumerConsAddress(data.Validator.Address)
+//@ let p := old(k.GetProviderAddrFromConsumerAddr(ctx, c, cAddr))
+//@ let valid := data.Validate() == nil && old(k.getMappedInfractionHeight(ctx, c, data.ValsetUpdateId)).1
+//@ let ds := data.Infraction == stakingtypes.Infraction_INFRACTION_DOUBLE_SIGN
+//@ let launched := old(k.GetConsumerPhase(ctx, c)) == providertypes.CONSUMER_PHASE_LAUNCHED
+//@ let member := old(k.IsConsumerValidator(ctx, c, p))
+//@ let meter0 := old(k.GetSlashMeter(ctx))
+//@ let acks0 := old(k.GetSlashAcks(ctx, c))
+//@ ensures [invalid] !valid ==> result1 != nil && S == old(S) && E == old(E) && X == old(X)
+//@ ensures [valid-ok] valid ==> result1 == nil
+//@ ensures [double-sign] valid && ds ==> result0 == ccv.V1Result && E == old(E) && X == old(X) && k.GetSlashLog(ctx, p)
+//@ ensures [double-sign-frame] valid && ds ==> forall key bytes :: key != providertypes.SlashLogKey(p) ==> S[key] == old(S[key])
+//@ ensures [not-launched] valid && !ds && !launched ==> result0 == ccv.SlashPacketHandledResult && E == old(E) && X == old(X) && len(k.GetSlashAcks(ctx, c)) == len(acks0) + 1 && k.GetSlashAcks(ctx, c)[len(acks0)] == cAddr.String()
+//@ ensures [not-member] valid && !ds && launched && !member ==> result0 == ccv.SlashPacketHandledResult && E == old(E) && X == old(X) && len(k.GetSlashAcks(ctx, c)) == len(acks0) + 1 && k.GetSlashAcks(ctx, c)[len(acks0)] == cAddr.String()
+//@ ensures [declined-frame] valid && !ds && (!launched || !member) ==> forall key bytes :: key != providertypes.SlashAcksKey(c) ==> S[key] == old(S[key])
+//@ ensures [bounced] valid && !ds && launched && member && meter0 < 0 ==> result0 == ccv.SlashPacketBouncedResult && S == old(S) && E == old(E) && X == old(X)
+//@ ensures [handled] valid && !ds && launched && member && meter0 >= 0 ==> result0 == ccv.SlashPacketHandledResult
+//@ ensures [gate] E != old(E) ==> valid && !ds && launched && member && meter0 >= 0
+//@ ensures [deduct] valid && !ds && launched && member && meter0 >= 0 ==> k.GetSlashMeter(ctx) == meter0 - old(k.GetEffectiveValPower(ctx, p))
+//@ ensures [results-distinct] ccv.V1Result != ccv.SlashPacketHandledResult && ccv.SlashPacketHandledResult != ccv.SlashPacketBouncedResult && ccv.V1Result != ccv.SlashPacketBouncedResult
